@@ -166,7 +166,7 @@ func runCodec(r *common.Rand) {
 	for _, p := range partPool {
 		jsonStringCase(p)
 	}
-	for i := 0; i < run.Scale(3000, 200000); i++ {
+	for i := 0; i < run.Scale(3000, 100000); i++ {
 		if r.Intn(4) == 0 {
 			jsonStringCase(genPart(r))
 		} else {
